@@ -23,7 +23,7 @@ Definition hkey (b : hbinding) : string := h_name b ++ ":" ++ join "," (ssort (h
 (* what can be read off the real outputs: header maps without constant member leave no trace; the grid pseudo properties and a
    lone `separator: false` have no element of their own; of the attached bindings only the listed ones are visible per item *)
 Definition canon (hidden : list string) (vis_att : list string) (r : result) : list string * list string * list string * list string * bool * list string :=
-  (flat_map (fkey (fun n => negb (mem n (TABLE_VIEW_PSEUDO ++ TREE_VIEW_PSEUDO)%list))) (filter (fun e => negb (mem (f_name e) hidden)) (r_form r)),
+  (flat_map (fkey (fun n => negb (mem n ("contentsMargins" :: TABLE_VIEW_PSEUDO ++ TREE_VIEW_PSEUDO)%list))) (filter (fun e => negb (mem (f_name e) hidden)) (r_form r)),
    map f_name (filter (fun e => mem (f_name e) vis_att) (r_attached r)),
    map hkey (r_bindings r), r_callbacks r, r_header r, ssort (map dkey (r_diags r))).
 Definition res_eqb (a b : list string * list string * list string * list string * bool * list string) : bool :=
@@ -448,8 +448,9 @@ def observe(root, res):
                 elif b["kind"] == "gadget":
                     if n == "contentsMargins":
                         ms = [m["name"] for m in b["members"] if (m["name"] + "Margin") in pnames]
-                        # the entry itself leaves no trace without a constant member: count it as present (as the model does) iff the layout element exists
-                        form.append(n + ":" + ",".join(sorted(ms)))
+                        # the entry itself leaves no trace without a constant member (the canonical form drops it on the model side too)
+                        if ms:
+                            form.append(n + ":" + ",".join(sorted(ms)))
                     elif uin in pnames:
                         pe = [p for p in el.findall("property") if p.get("name") == uin][0]
                         g = pe[0]
